@@ -453,6 +453,19 @@ func mOracleC01(c mCase, r *hRun, res *engine.Result, data *mData, shape string)
 		res.Violate("merge-commit-changes-rows:"+shape, "rows after the merging read-write open differ: %v -> %v (%v) [%s]", first, rows, err, r.h)
 	}
 	z1.Close()
+	// every version object, merge versions included, is closed under reference and decodes
+	{
+		objs := r.w.B.Snapshot()
+		cur, mer := engine.Versions(objs, l)
+		for _, n := range append(cur, mer...) {
+			vd, err := engine.WalkVersion(objs, l, n)
+			if err != nil {
+				res.Violate("version-undecodable", "%v [%s]", err, r.h)
+			} else if len(vd.Missing) > 0 || len(vd.Tree.Problems) > 0 {
+				res.Violate("merge-version-malformed", "version %s: missing %v problems %v [%s]", n, vd.Missing, vd.Tree.Problems, r.h)
+			}
+		}
+	}
 	keysBefore := strings.Join(r.w.B.Keys(""), "\n")
 	mark := r.w.B.LogLen()
 	z2 := r.w.NewClient("z2")
